@@ -344,6 +344,10 @@ func c13Check(cs c13Case, base []string) (sig, detail string) {
 	if strings.HasPrefix(name, "c02:") {
 		name = "c02"
 	}
+	if name == "js-changing-builtin-objects" && cs.Cfg.JS != 0 && c15Diff(c13Run(c13Cfg{NodePool: cs.Cfg.NodePool, Transform: cs.Cfg.Transform, XPath: cs.Cfg.XPath}, cs.Job), base) == "" {
+		// known finding: with the JavaScript switches as in the all-enabled run there is no difference
+		return "js:pooled-vm-keeps-changes-to-builtin-objects", fmt.Sprintf("job %s under [%s] differs from the all-enabled run at %s", cs.Job.Name, cs.Cfg, d)
+	}
 	return fmt.Sprintf("result-depends-on:%s:%s", which, name), fmt.Sprintf("job %s under [%s] differs from the all-enabled run at %s\nschema %s\ninput %s", cs.Job.Name, cs.Cfg, d, trunc2(cs.Job.Schema, 1200), trunc2(cs.Job.Input, 400))
 }
 
